@@ -24,7 +24,8 @@ RangeOf(sq) == { sq[i] : i \in DOMAIN sq }
 Http == { Rec[i] : i \in { j \in DOMAIN Rec : Rec[j].kind = "http" } }
 
 \* ---- constants of the model, from the trace
-TPrincipals == 0..3
+TPrincipals == 0..4
+Dev(r) == IF "dev" \in DOMAIN r THEN r.dev ELSE r.p      \* the cookie jar (device) a request came from; r.p is the person
 TAccounts == { r.args.username : r \in { x \in Http : x.op \in {"register", "login", "update"} } }
 TPNames == { r.args.name : r \in { x \in Http : x.op \in {"add", "solve", "get", "delete"} } } \ {""}
 TTemp == {"~t1", "~t2", "~t3", "~t4", "~t5", "~t6", "~t7", "~t8"}
@@ -85,24 +86,24 @@ TraceNext ==
   /\ l <= Len(Rec)
   /\ LET r == Rec[l] IN
      CASE r.kind = "http_start" ->          \* a request launched concurrently: it stays in flight, its response comes later
-            /\ Start(r.p, ReqOf(r)) /\ ph' = "start" /\ l' = l + 1
+            /\ Start(Dev(r), ReqOf(r)) /\ ph' = "start" /\ l' = l + 1
        [] r.kind = "http" /\ "concurrent" \in DOMAIN r ->          \* ... and this is that response
-            \/ (Step(r.p) /\ ph' = ph /\ l' = l)
-            \/ /\ req[r.p].op = "idle" /\ req[r.p].status = r.status
+            \/ (Step(Dev(r)) /\ ph' = ph /\ l' = l)
+            \/ /\ req[Dev(r)].op = "idle" /\ req[Dev(r)].status = r.status
                /\ l' = l + 1 /\ ph' = "start" /\ UNCHANGED vars
        [] r.kind = "http" /\ ph = "start" ->
-            \/ (Start(r.p, ReqOf(r)) /\ ph' = "run" /\ l' = l)
-            \/ InFlightStep(r.p)
+            \/ (Start(Dev(r), ReqOf(r)) /\ ph' = "run" /\ l' = l)
+            \/ InFlightStep(Dev(r))
        [] r.kind = "http" /\ ph = "run" ->
-            \/ InFlightStep(r.p)
-            \/ (Step(r.p) /\ ph' = ph /\ l' = l)
+            \/ InFlightStep(Dev(r))
+            \/ (Step(Dev(r)) /\ ph' = ph /\ l' = l)
             \/ (\E t \in tasks : TaskStep(t) /\ ph' = ph /\ l' = l)
             \/ \* the response: same status; if the observer saw quiescence afterwards, no task may be left
-               /\ req[r.p].op = "idle" /\ req[r.p].status = r.status
+               /\ req[Dev(r)].op = "idle" /\ req[Dev(r)].status = r.status
                /\ (QuietAfter(l) => tasks = {})
                /\ l' = l + 1 /\ ph' = "start"
-               /\ DropAnon(r.p)
-               /\ UNCHANGED <<users, probs, running, req, tasks, nextId, nreq, foreignRead, foreignEffect, wrongResult>>
+               /\ DropAnon(Dev(r))
+               /\ UNCHANGED <<users, probs, running, req, tasks, nextId, nreq, foreignRead, foreignEffect, wrongResult, stale>>
        [] r.kind = "db" ->
             \/ (\E t \in tasks : TaskStep(t) /\ ph' = ph /\ l' = l)
             \/ /\ (r.pending_writes = 0) => (tasks = {} /\ ModelDocs = SnapDocs(r.dump) /\ ModelUsers = SnapUsers(r.dump))
